@@ -64,9 +64,11 @@ func c16Main(args []string) int {
 
 	// ---- Part A ----
 	if *part == "all" || *part == "space" {
-		depth := 4
+		// the bound is generous on purpose: the canonical state space is finite and small, the search normally
+		// stops earlier because the frontier is empty (fixpoint: every reachable canonical state expanded)
+		depth := 40
 		if thorough {
-			depth = 5
+			depth = 80
 		}
 		if *depthF > 0 {
 			depth = *depthF
@@ -76,6 +78,7 @@ func c16Main(args []string) int {
 		st := space.Search(rep, []string{"C16", "worker", "space"}, depth, *procs, deadline, 97)
 		space.FillEvidence(rep, st)
 		rep.Set("space_depth_bound", depth)
+		rep.Set("space_fixpoint_reached", st.Exhaustive && st.FrontierLeft == 0 && st.DepthDone < depth)
 		rep.Set("space_wall_s", time.Since(t0).Seconds())
 		diverged += st.Diverged
 		if !st.Exhaustive {
@@ -118,7 +121,7 @@ func c16Main(args []string) int {
 		rep.Set("sched_deadlocks", tot.Deadlocks)
 		rep.Set("sched_leaks", tot.Leaks)
 		rep.Set("sched_panics", tot.Panics)
-		rep.Set("sched_executions_second_client_won_or_refused", tot.Interesting)
+		rep.Set("sched_executions_second_seal_refused_only_by_index_guard_under_lock", tot.Interesting)
 		rep.Set("sched_wall_s", time.Since(t0).Seconds())
 		diverged += tot.Diverged
 		if !tot.Exhaustive {
@@ -132,7 +135,7 @@ func c16Main(args []string) int {
 		fmt.Printf("C16 SCHED: executions=%d outcomes=%d exhaustive-within-bound=%v caps=%v (%.1fs)\n", tot.Executions, len(tot.Outcomes), tot.Exhaustive, tot.Caps, time.Since(t0).Seconds())
 	}
 	rep.Set("exhaustive", exhaustive)
-	rep.Set("exhaustive_note", "true = every call sequence up to space_depth_bound (canonical-state BFS) and every schedule within sched_bound was executed; no cap or deadline was hit")
+	rep.Set("exhaustive_note", "true = every call sequence up to space_depth_bound (canonical-state BFS; with space_fixpoint_reached every reachable canonical state was expanded, i.e. sequences of any length) and every schedule within sched_bound was executed; no cap or deadline was hit")
 	rep.Set("alphabet", "Propose{c1 contract, s1 spice, c1x forged issuer} Confirm{receiver, attacker key, unsigned} Reject{receiver, issuer, attacker claiming receiver} Data{A,B} Waiting{A,B}x{current, foreign, superseded replay, wrong key} TransactionsInDAG{A current|stale} Saved{s1,c1}x{A, attacker claiming A} Balance{A, attacker, data!=address} Clock(+2min)")
 	rep.Assume("each API call is atomic in Part A: the handler and the goroutines it spawns run to quiescence under the default schedule before the next call; interleavings are explored in Part B only for the duplicate write calls")
 	rep.Assume("challenge expiry follows the logical clock (dataprovider is instrumented); the flashback / awaiting-cache life windows (bigcache, wall clock, 20 s / 5 min) do not elapse during an execution")
